@@ -119,7 +119,9 @@ theorem readVolumeLabelFromRootDir_propagates : Propagates readVolumeLabelFromRo
     fired). What is missing for plain `Propagates`: that freeing the single, just allocated cluster cannot fail once
     no device call can fail any more — a fact about the FAT contents, not about error flow. Since `create_dir` writes
     three entries with `write_entry`, the outcomes of THAT roll-back (`EntryRollbackX`) are tolerated too:
-    `ApiX = RollbackErr ∨ EntryRollbackX` (both: an error of a roll-back run after the fault). -/
+    `ApiX = RollbackErr ∨ EntryRollbackX` (both: an error of a roll-back run after the fault).
+    Props/C09wview.lean: on writable directories `EntryRollbackX` is excluded (`createDir_propagates_wview`), and for the
+    fixed root as parent `RollbackErr` too (`createDir_propagates_root_plain`: plain `Propagates`). -/
 theorem createDir_propagates_partial (env : Env) (fuel : Nat) (d : DirStream) (path : String) :
     PropagatesX ApiX (createDir env fuel d path) := createDir_propagatesX env fuel d path
 
